@@ -31,6 +31,38 @@ GO_CANDIDATES = [
 RAPID_VERSION = "v1.3.0"
 
 
+import contextlib
+import fcntl
+
+SLOTS = int(os.environ.get("VERIF_SLOTS", "16"))
+SLOT_DIR = "/tmp/verif-slots"
+
+
+@contextlib.contextmanager
+def slot(kind="t"):
+    """Machine-wide counting semaphore (flock on one of SLOTS files) so that concurrently running
+    checks do not oversubscribe the cores; uncontended it costs nothing."""
+    os.makedirs(SLOT_DIR, exist_ok=True)
+    n = SLOTS if kind == "t" else max(2, SLOTS // 4)
+    fh = None
+    while fh is None:
+        for i in range(n):
+            f = open(os.path.join(SLOT_DIR, "%s%d" % (kind, i)), "w")
+            try:
+                fcntl.flock(f, fcntl.LOCK_EX | fcntl.LOCK_NB)
+                fh = f
+                break
+            except OSError:
+                f.close()
+        if fh is None:
+            time.sleep(0.5)
+    try:
+        yield
+    finally:
+        fcntl.flock(fh, fcntl.LOCK_UN)
+        fh.close()
+
+
 def go_bin():
     for c in GO_CANDIDATES:
         if os.path.exists(c):
@@ -105,7 +137,8 @@ def build_unit(cid, unit, fuzz=False, race=False):
     if unit.get("cgo") is False:
         env["CGO_ENABLED"] = "0"
     t0 = time.time()
-    r = subprocess.run(cmd, cwd=REPO, env=env, stdout=subprocess.PIPE, stderr=subprocess.STDOUT, text=True)
+    with slot("b"):
+        r = subprocess.run(cmd, cwd=REPO, env=env, stdout=subprocess.PIPE, stderr=subprocess.STDOUT, text=True)
     if r.returncode != 0 and fuzz:
         # -fuzz with -c needs exactly one target match on some toolchains: fall back to no instrumentation
         cmd2 = [c for c in cmd if c not in ("-fuzz", ".")]
@@ -149,10 +182,11 @@ class Run:
                "-rapid.seed=%d" % eff, "-rapid.checks=%d" % self.checks, "-rapid.shrinktime=%s" % tcfg.get("shrinktime", "20s"),
                "-test.count=1"] + self.extra
         self.cmd = cmd
-        t0 = time.time()
         try:
-            r = subprocess.run(cmd, cwd=self.wdir, env=env, stdout=subprocess.PIPE, stderr=subprocess.STDOUT,
-                               text=True, errors="replace", timeout=timeout + 60)
+            with slot("t"):
+                t0 = time.time()
+                r = subprocess.run(cmd, cwd=self.wdir, env=env, stdout=subprocess.PIPE, stderr=subprocess.STDOUT,
+                                   text=True, errors="replace", timeout=timeout + 60)
             self.rc, self.out = r.returncode, r.stdout
         except subprocess.TimeoutExpired as e:
             self.rc, self.out, self.timed_out = -9, (e.stdout or b"").decode(errors="replace") if isinstance(e.stdout, bytes) else (e.stdout or ""), True
